@@ -21,6 +21,7 @@ import concurrent.futures
 import json
 import os
 import random
+import shutil
 
 import lib
 
@@ -47,14 +48,14 @@ def show(t):
 
 
 # ------------------------------------------------------------------------------------------------ part (a)
-def drive_post(ctx, binary, cp, op, pp, modes, st, cases):
+def drive_post(ctx, binary, cp, op, pp, modes, st, cases, extra=()):
     """Run the driver; a crash of the process (fatal error in the real code, e.g. a stack overflow, cannot be recovered
     in-process) is attributed to the case being processed, reported, and the run continues after it."""
     prog = cp + ".progress"
     start = 0
     mlist = [m.strip() for m in modes.split(",")]
     for crash in range(6):
-        args = ["-in", cp, "-out", op, "-panics", pp, "-modes", modes, "-progress", prog]
+        args = ["-in", cp, "-out", op, "-panics", pp, "-modes", modes, "-progress", prog] + list(extra)
         if start:
             args += ["-from", str(start)]
         p = ctx.run_bin(binary, args, timeout=3000, check=False)
@@ -77,6 +78,31 @@ def drive_post(ctx, binary, cp, op, pp, modes, st, cases):
                           {"kind": "post", "c": c["c"], "modes": mlist[mi], "crash": reason})
         start = line
     ctx.notes.append("postprocess driver: more than 5 crashes, the remaining cases of the stratum were not run")
+
+
+def reuse_lane(ctx, binary, stratum, cases, modes, st, rng, cap):
+    """ONE long-lived postprocess.Processor per mode processes a seed-shuffled sequence of the generated plans (fetch ids are
+    reused across plans by construction). Returns the observation / panic files (every tree is judged by TLC like any other);
+    a tree that differs from the tree a fresh Processor produces for the same plan is history dependence: reported here."""
+    seq = list(cases)
+    rng.shuffle(seq)
+    seq = [{"id": c["id"], "c": c["c"]} for c in seq[:cap]]
+    cp, op, pp, mm = (ctx.path("%s-%s-reuse.ndjson" % (k, stratum)) for k in ("cases", "obs", "panics", "mismatch"))
+    lib.write_ndjson(cp, seq)
+    drive_post(ctx, binary, cp, op, pp, modes, st, seq, extra=["-reuse", "-mismatch", mm])
+    if os.path.exists(mm):
+        for m in lib.read_ndjson(mm):
+            st["rejected"] += 1
+            if st["reports"] < MAX_REPORTS:
+                if ctx.violation("post:history-dependent:%s:%s" % (stratum, mode_name(m["mode"]).split("/")[0]),
+                                 "a long-lived postprocess.Processor produced the tree %s for the plan n=%d deps=%s (mode %s) after other plans, "
+                                 "a fresh Processor produces %s for the same plan: the result depends on the plans processed before" % (
+                                     show(m["reused"]), m["c"]["n"], m["c"]["deps"], mode_name(m["mode"]), show(m["fresh"])),
+                                 {"kind": "post-reuse", "c": m["c"], "mode": m["mode"], "reused": m["reused"], "fresh": m["fresh"]}):
+                    st["reports"] += 1
+                else:
+                    st["known"] += 1
+    return op, pp, len(seq)
 
 
 def post_validate(ctx, binary, stratum, cases, modes, st):
@@ -416,7 +442,7 @@ def replay(ctx, bins):
     case = rep["case"]
     st = {"reports": 0, "rejected": 0, "known": 0, "bad_obs": set()}
     cov = {"unreal": 0, "validated": 0, "replayed": 0, "distinct": set(), "distinct_all": set(), "samples": []}
-    if case.get("kind") == "post":
+    if case.get("kind") in ("post", "post-reuse"):   # (a history-dependent tree is re-judged with a fresh Processor only)
         modes = case.get("modes") or mode_name(case["mode"])
         post_validate(ctx, bins["postprocess"], "replay", [{"id": "replay", "c": case["c"]}], modes, st)
     elif case.get("kind") == "fed":
@@ -458,7 +484,15 @@ def run(ctx):
     load_own_findings(ctx)
     rng = random.Random(ctx.seed)
     quick = ctx.quick()
-    bins = {b: ctx.build(b) for b in ("postprocess", "ftexec", "ftfed")}
+    bins = {}
+    for b in ("postprocess", "ftexec", "ftfed"):
+        # private copy: other agents' mutant runs remove /verif/.build-* directories at any moment
+        built = ctx.build(b)
+        bins[b] = ctx.path("bin-" + b)
+        try:
+            shutil.copy2(built, bins[b])
+        except OSError as e:
+            raise lib.Inconclusive("the freshly built driver %s disappeared before it could be copied: %s" % (b, e))
     if ctx.replay_in:
         return replay(ctx, bins)   # (own findings fragment already loaded above)
     st = {"reports": 0, "rejected": 0, "known": 0, "bad_obs": set()}
@@ -499,6 +533,7 @@ def run(ctx):
     samples = []
     exhaustive_a = True
     plain_obs_path = None
+    reuse_files, reuse_cases = [], 0
     for stratum in ("plain", "multi", "paths", "dedup", "defer"):
         cases = [by_stratum.get(stratum, {})[k] for k in sorted(by_stratum.get(stratum, {}))]
         total = len(cases)
@@ -513,10 +548,17 @@ def run(ctx):
             cp, op, pp = ctx.path("cases-%s.ndjson" % stratum), ctx.path("obs-%s.ndjson" % stratum), ctx.path("panics-%s.ndjson" % stratum)
             lib.write_ndjson(cp, cs)
             drive_post(ctx, bins["postprocess"], cp, op, pp, MODES[stratum], st, cs)
+            rop, rpp, nre = reuse_lane(ctx, bins["postprocess"], stratum, cs, MODES[stratum], st, rng, 1000 if stratum == "multi" else 10 ** 9)
+            reuse_files.append((rop, rpp))
         else:
             nobs, nok = post_validate(ctx, bins["postprocess"], stratum, cs, MODES[stratum], st)
             obs_total += nobs
             obs_ok += nok
+            rop, rpp, nre = reuse_lane(ctx, bins["postprocess"], stratum, cs, MODES[stratum], st, rng, 8000)
+            nobs, nok = post_validate_files(ctx, [rop], [rpp], st, tag=stratum + "-reuse")
+            obs_total += nobs
+            obs_ok += nok
+        reuse_cases += nre
         cases_total += len(cases)
         nmodes = len(MODES[stratum].split(","))
         for c in cases:
@@ -534,8 +576,9 @@ def run(ctx):
     fed = lib.read_ndjson(fpp)
     fed_obs = ctx.path("obs-fedplans.ndjson")
     lib.write_ndjson(fed_obs, [{"id": p["grp"], "real": True, "tree": p["tree"], "deps": p["deps"]} for p in fed])
-    files = [fed_obs] + ([ctx.path("obs-%s.ndjson" % x) for x in n_a] if quick else [])
-    nobs, nok = post_validate_files(ctx, files, [ctx.path("panics-%s.ndjson" % x) for x in n_a] if quick else [], st, tag="all")
+    files = [fed_obs] + ([ctx.path("obs-%s.ndjson" % x) for x in n_a] + [f for f, _ in reuse_files] if quick else [])
+    nobs, nok = post_validate_files(ctx, files, ([ctx.path("panics-%s.ndjson" % x) for x in n_a] + [p for _, p in reuse_files]) if quick else [],
+                                    st, tag="all")
     obs_total += nobs
     obs_ok += nok
 
@@ -760,7 +803,7 @@ def run(ctx):
                 "postprocess.Processor and judged by TLC; non-trivial = the DAG has at least one edge; distinct by (case hash, mode). "
                 "part (b): one evaluation = one TLC-generated schedule forced on the real loader and validated by TLC; non-trivial = some "
                 "request acts between the prepare and the finish of another one (or a lock probe); distinct by (plan, failing requests, resolver entry point, steps)",
-        "part_a": {"cases": cases_total, "observations": obs_total, "accepted": obs_ok, "bounds": n_a, "exhaustive_within_bounds": exhaustive_a},
+        "part_a": {"reuse_lane_plans": reuse_cases, "cases": cases_total, "observations": obs_total, "accepted": obs_ok, "bounds": n_a, "exhaustive_within_bounds": exhaustive_a},
         "part_b": {"schedules_replayed": cov["replayed"], "traces_accepted": cov["validated"], "distinct_schedules": len(cov["distinct_all"]),
                    "unrealised_schedules": cov["unreal"], "federated_plans": cov.get("fed_plans", [])},
         "samples": (samples + cov["samples"])[:8],
